@@ -356,6 +356,21 @@ func c05GenForms(rng *rand.Rand, idx int, backend string) c05FormsOp {
 			f.Client = c05OptStr(rng, 30, "clientA")
 		}
 		op.Reqs = append(op.Reqs, f)
+		// now and then the honest holder of the secret just named comes right after (the replay the property is about)
+		if rng.Intn(3) == 0 {
+			if f.T == "token" && f.Grant == "authorization_code" && f.Code != nil {
+				v, c := c05FormsPKCE.Verifier, "clientA"
+				op.Reqs = append(op.Reqs, c05Form{T: "token", Grant: "authorization_code", Code: f.Code, Verifier: &v, Client: &c})
+			} else if f.T == "response" && f.Vp != nil {
+				for _, p := range *f.Vp {
+					if n := p.Challenge + p.Nonce + p.Jwt; n != "" && !p.Lderr && (p.Challenge == "" || p.Nonce == "") {
+						st := "clientA"
+						op.Reqs = append(op.Reqs, c05Form{T: "response", State: &st, Vp: &[]c05Pres{{Fmt: "ld", Challenge: n}}})
+						break
+					}
+				}
+			}
+		}
 	}
 	return op
 }
@@ -364,7 +379,7 @@ func c05GenForms(rng *rand.Rand, idx int, backend string) c05FormsOp {
 func c05Forms(w *storage.VerifC05Writer, base *Wrapper, rng *rand.Rand, thorough bool) {
 	n := 150
 	if thorough {
-		n = 1200
+		n = 600
 	}
 	for i := 0; i < n; i++ {
 		backend := "mem"
